@@ -553,6 +553,10 @@ pub fn replay(sc: &Value) -> Value {
                     viol.push(json!({"prop": "C09", "clause": "drop-never-blocks", "detail": format!("dropping a handle took {:?}", t.elapsed())}));
                 }
             }
+            "wait_at_point" => {
+                // the worker has passed its stop check and stands at the scheduling point (held there while gating is on)
+                let _ = wait_until(|| ARRIVED.load(Ordering::SeqCst) > parks, 3000);
+            }
             "park" => {
                 // the worker registers as a parked receiver now: wait until it stands at the scheduling point, let it
                 // through once and give it time to block in recv()
